@@ -489,7 +489,21 @@ def typedefs(draw, ctx: Ctx, path):
         lambda s: not prof.unique_lower_class_names or s.lower() not in ctx.lower_classes))
     used.add(new)
     ctx.lower_classes.add(new.lower())
-    return M.Typedef(M.Type(ns, nm, targs), new)
+    first = M.Typedef(M.Type(ns, nm, targs), new)
+    # a second typedef, of the same-named template in another namespace, right next to it
+    twins = [x for x in (targets if targets else []) if x is not d and x.name == d.name] \
+        if targets else []
+    if twins and draw(st.booleans()):
+        t = twins[0]
+        targs2 = tuple(draw(types(ctx, 1, (), qualifiers=False, numbers=True, inner=True,
+                                  top_qualifiers=False)) for _ in range(t.nparams))
+        new2 = draw(class_name(used).filter(
+            lambda s: not prof.unique_lower_class_names or s.lower() not in ctx.lower_classes))
+        used.add(new2)
+        ctx.lower_classes.add(new2.lower())
+        ctx.locked.add((t.path, t.name))
+        return [first, M.Typedef(M.Type(t.path, t.name, targs2), new2)]
+    return first
 
 
 @st.composite
@@ -557,7 +571,9 @@ def contents(draw, ctx: Ctx, path: Tuple[str, ...], depth_left: int, max_items=N
             out.append(draw(fwds(ctx, path)))
         elif k == 'typedef':
             t = draw(typedefs(ctx, path))
-            if t is not None:
+            if isinstance(t, list):
+                out.extend(t)
+            elif t is not None:
                 out.append(t)
         else:
             used = ctx.names(path)
